@@ -25,9 +25,12 @@ inductive SendKind where
 /-- under which condition the site is reached: `always` = a statement of the function body itself;
     `parentCreated` = inside exactly `if let Some(parent) = xvc_path.parents().first()` and
     `if !parent_dir.exists()` (the parent directory was missing and has just been created);
+    `destAbsent` = inside exactly one `if` whose condition is the negation of `path.exists()` taken BEFORE the
+    function removed what was at the destination (`if !path.exists()`, or `if !v` with `let v = path.exists();`):
+    reached only when nothing was at the destination;
     `other` = any other enclosing condition -/
 inductive SendGuard where
-  | always | parentCreated | other
+  | always | parentCreated | destAbsent | other
   deriving DecidableEq, Repr
 
 structure SendSite where
@@ -41,6 +44,25 @@ inductive IgnoreOp where
   | file (f : Target)
   deriving DecidableEq, Repr
 
+/-- What sits at the destination path when `recheck_from_cache` is entered.  The function removes it
+    ("If the file already exists, we delete it") and puts the cached content there; callers reach it with
+    every one of these: `recheck` / `carry_in` delete the target themselves first (`absent`), `copy --force`
+    onto a file xvc does not know (`file`: made by hand, or a path that was untracked), onto a path whose
+    earlier materialisation was a symlink / hardlink into the cache (`link`), onto a link whose target is
+    gone (`danglingLink`). -/
+inductive PriorEntry where
+  | absent | file | link | danglingLink
+  deriving DecidableEq, Repr
+
+/-- `Path::exists` (follows symbolic links): the test `recheck_from_cache` makes before `fs::remove_file` -/
+def PriorEntry.pathExists : PriorEntry → Bool
+  | .absent => false
+  | .file => true
+  | .link => true
+  | .danglingLink => false
+
+def PriorEntry.all : List PriorEntry := [.absent, .file, .link, .danglingLink]
+
 /-- `xvc_path.parents().first()`: the directory of the file as a target (`none` for a file at the root) -/
 def parentTarget (x : Target) : Option Target :=
   match x.dir.reverse with
@@ -48,13 +70,14 @@ def parentTarget (x : Target) : Option Target :=
   | n :: d => some ⟨d.reverse, n⟩
 
 /-- the operations the send sites emit for the materialised file `x`; `created` = its parent directory
-    did not exist and was created.  A `computed` argument and an `other` guard contribute nothing: only
-    what the source shows to be sent is counted. -/
-def emittedOps (sites : List SendSite) (created : Bool) (x : Target) : List IgnoreOp :=
+    did not exist and was created; `prior` = what was at the path of `x` before.  A `computed` argument and
+    an `other` guard contribute nothing: only what the source shows to be sent is counted. -/
+def emittedOps (sites : List SendSite) (created : Bool) (prior : PriorEntry) (x : Target) : List IgnoreOp :=
   sites.flatMap fun s =>
     let fires := match s.guard with
       | .always => true
       | .parentCreated => created
+      | .destAbsent => !prior.pathExists
       | .other => false
     if fires then
       match s.kind with
@@ -66,20 +89,34 @@ def emittedOps (sites : List SendSite) (created : Bool) (x : Target) : List Igno
 def opDirs (ops : List IgnoreOp) : List Target := ops.filterMap fun | .dir d => some d | .file _ => none
 def opFiles (ops : List IgnoreOp) : List Target := ops.filterMap fun | .file f => some f | .dir _ => none
 
-/-- all operations of one command: every materialised file with the flag "its parent was created" -/
-def materialiseOps (sites : List SendSite) (xs : List (Target × Bool)) : List IgnoreOp :=
-  xs.flatMap fun p => emittedOps sites p.2 p.1
+/-- all operations of one command: every materialised file with the flag "its parent was created" and
+    what was at its path before -/
+def materialiseOps (sites : List SendSite) (xs : List (Target × Bool × PriorEntry)) : List IgnoreOp :=
+  xs.flatMap fun p => emittedOps sites p.2.1 p.2.2 p.1
 
 /-- the `.gitignore` files after a command that materialised `xs`: the handler works on what was sent -/
-def materialiseUpdate (sites : List SendSite) (date : Str) (xs : List (Target × Bool)) (t : Tree) : Tree :=
+def materialiseUpdate (sites : List SendSite) (date : Str) (xs : List (Target × Bool × PriorEntry)) (t : Tree) : Tree :=
   handlerUpdate date (opDirs (materialiseOps sites xs)) (opFiles (materialiseOps sites xs)) t
 
 /-- a site that sends `IgnoreFile` unconditionally makes every materialised file a file operation -/
 theorem file_op_of_unconditional_site (sites : List SendSite) (h : ⟨.ignoreFile, .always⟩ ∈ sites)
-    (created : Bool) (x : Target) : IgnoreOp.file x ∈ emittedOps sites created x := by
+    (created : Bool) (prior : PriorEntry) (x : Target) : IgnoreOp.file x ∈ emittedOps sites created prior x := by
   unfold emittedOps
   rw [List.mem_flatMap]
   exact ⟨⟨.ignoreFile, .always⟩, h, by simp⟩
+
+/-- sites whose guards do not look at the destination emit the same operations whatever was there -/
+theorem emittedOps_prior_irrelevant (sites : List SendSite) (h : ∀ s ∈ sites, s.guard ≠ .destAbsent)
+    (created : Bool) (p1 p2 : PriorEntry) (x : Target) :
+    emittedOps sites created p1 x = emittedOps sites created p2 x := by
+  unfold emittedOps
+  induction sites with
+  | nil => rfl
+  | cons s rest ih =>
+    simp only [List.flatMap_cons]
+    rw [ih (fun s' hs' => h s' (List.mem_cons_of_mem _ hs'))]
+    have hs := h s (List.mem_cons_self ..)
+    cases hg : s.guard <;> simp_all
 
 theorem mem_opFiles (ops : List IgnoreOp) (x : Target) : x ∈ opFiles ops ↔ IgnoreOp.file x ∈ ops := by
   unfold opFiles
